@@ -15,6 +15,8 @@ pub struct Ctx {
     pub workers: usize,
     /// wall-clock budget for the whole property, seconds (caps are reported, never hidden)
     pub budget_s: f64,
+    /// wall-clock cap per scenario (budget / number of scenarios, set by run_property)
+    pub scenario_cap_s: f64,
 }
 
 impl Ctx {
@@ -143,6 +145,9 @@ pub fn run_property(def: PropertyDef, ctx: &Ctx) -> PropertyRun {
             order.swap(i, (x % (i as u64 + 1)) as usize);
         }
     }
+    let mut ctx = ctx.clone();
+    ctx.scenario_cap_s = (ctx.budget_s / def.scenarios.len().max(1) as f64).max(if ctx.quick() { 4.0 } else { 60.0 });
+    let ctx = &ctx;
     for i in order {
         let s = &def.scenarios[i];
         let r = (s.run)(ctx);
